@@ -11,11 +11,22 @@ from tools_seeded import scratch, sh, ENV  # noqa: E402
 
 
 def main():
-    patch = os.path.abspath(sys.argv[1])
-    props = sys.argv[2:] or ["C%02d" % i for i in range(1, 21)]
+    args = sys.argv[1:]
+    base_rev = None
+    if args[0] == "--base-rev":       # the patch was written against an earlier commit of /repo: use those file versions
+        base_rev, args = args[1], args[2:]
+    patch = os.path.abspath(args[0])
+    props = args[1:] or ["C%02d" % i for i in range(1, 21)]
     tmp = scratch()
     bad = 0
     try:
+        if base_rev:
+            rc, names = sh("git -C /repo diff --name-only %s HEAD" % base_rev)
+            for rel in names.split():
+                rc, old = sh("git -C /repo show %s:%s" % (base_rev, rel))
+                if rc == 0:
+                    open(os.path.join(tmp, rel), "w").write(old)
+            print("files taken from %s: %s" % (base_rev, names.split()))
         rc, out = sh("patch -p1 -s -i %s" % patch, cwd=tmp)
         if rc != 0:
             print("PATCH DOES NOT APPLY:", out[-300:])
